@@ -1295,7 +1295,7 @@ class Interp(Ops, Builtins, DynOps):
         # dropped, the invariant has to be self-sufficient; requires, definitions and quantifier-free facts stay
         c = self.ctx
         if c.base_len is not None:
-            c.pc = c.pc[:c.base_len] + [f for f in c.pc[c.base_len:] if not has_quant(f)]
+            c.pc = c.pc[:c.base_len] + [f for f in c.pc[c.base_len:] if not has_quant(f) or f.get_id() in c.keep_ids]
         self.havoc_for_loop(fr, names, attrs, spec, s)
         wmark = len(self.ctx.written)
         if which == 0:
@@ -1371,18 +1371,22 @@ class Interp(Ops, Builtins, DynOps):
         notw = z3.And(*[r != w for w in refs])
         old_len = ctx.len_map()
         new_len = ctx.fresh("len", old_len.sort())
-        ctx.assume(z3.ForAll([r], z3.Implies(notw, z3.Select(new_len, r) == z3.Select(old_len, r))))
-        ctx.assume(z3.ForAll([r], z3.Select(new_len, r) >= 0))
+        def keep(f):
+            ctx.assume(f)
+            ctx.keep_ids.add(f.get_id())
+            ctx.kept.append(f)
+        keep(z3.ForAll([r], z3.Implies(notw, z3.Select(new_len, r) == z3.Select(old_len, r))))
+        keep(z3.ForAll([r], z3.Select(new_len, r) >= 0))
         ctx.sheap[("len",)] = new_len
         for key in [k for k in ctx.sheap if k[0] == "item"]:
             old = ctx.sheap[key]
             new = ctx.fresh("item", old.sort())
-            ctx.assume(z3.ForAll([r], z3.Implies(notw, z3.Select(new, r) == z3.Select(old, r))))
+            keep(z3.ForAll([r], z3.Implies(notw, z3.Select(new, r) == z3.Select(old, r))))
             ctx.sheap[key] = new
         for key in [k for k in ctx.sheap if k[0] == "f"]:
             old = ctx.sheap[key]
             new = ctx.fresh("field", old.sort())
-            ctx.assume(z3.ForAll([r], z3.Implies(notw, z3.Select(new, r) == z3.Select(old, r))))
+            keep(z3.ForAll([r], z3.Implies(notw, z3.Select(new, r) == z3.Select(old, r))))
             ctx.sheap[key] = new
         # ground instances for the references the path knows
         new_alloc = ctx.fresh("alloc", ctx.alloc.sort())
